@@ -410,6 +410,29 @@ func init() {
 		}
 		return e.ts.True
 	})
+	// MemoPut / MemoGet: a per-path table keyed by the syntactic identity of byte terms
+	// (used by the models for O(1) "is this literally the output of an earlier call" lookups).
+	reg("MemoPut", func(e *Engine, fn *ssa.Function, a []Value) Value {
+		tab := concStr(e, a[0])
+		val := a[1].(Slice)
+		key := memoKey(tab, a[2].(Slice))
+		e.memo[key] = append([]Value(nil), val.D...)
+		return nil
+	})
+	reg("MemoGet", func(e *Engine, fn *ssa.Function, a []Value) Value {
+		tab := concStr(e, a[0])
+		key := memoKey(tab, a[1].(Slice))
+		if v, ok := e.memo[key]; ok {
+			o := e.newObj("memo")
+			o.Arr = append([]Value(nil), v...)
+			d := o.Arr
+			if d == nil {
+				d = []Value{}
+			}
+			return Tuple{Slice{O: o, D: d}, e.ts.True}
+		}
+		return Tuple{Slice{}, e.ts.False}
+	})
 	reg("And", func(e *Engine, fn *ssa.Function, a []Value) Value { return e.ts.BAnd(a[0].(*Term), a[1].(*Term)) })
 	reg("Or", func(e *Engine, fn *ssa.Function, a []Value) Value { return e.ts.BOr(a[0].(*Term), a[1].(*Term)) })
 	reg("Not", func(e *Engine, fn *ssa.Function, a []Value) Value { return e.ts.BNot(a[0].(*Term)) })
@@ -511,6 +534,18 @@ func init() {
 	intrinsics["runtime.KeepAlive"] = func(e *Engine, fn *ssa.Function, a []Value) Value { return Tuple(nil) }
 	intrinsics["internal/godebug.New"] = nil
 	delete(intrinsics, "internal/godebug.New")
+}
+
+func memoKey(tab string, parts Slice) string {
+	var sb strings.Builder
+	sb.WriteString(tab)
+	for _, p := range parts.D {
+		sb.WriteByte('|')
+		for _, b := range p.(Slice).D {
+			fmt.Fprintf(&sb, "%d,", b.(*Term).ID)
+		}
+	}
+	return sb.String()
 }
 
 func sliceStart(s Slice) int {
